@@ -101,6 +101,23 @@ def gen_config(rng, prop, tier="quick"):
             if o.get("inject_comp") == comps[i]["name"]:
                 o["inject_comp"] = None
         comps[i] = dict(comps[j], name=comps[i]["name"], clone_of=comps[j]["name"], in_base_robot=comps[i]["in_base_robot"])
+    elif len(comps) >= 2 and rng.random() < 0.25:
+        # a component whose class derives from an earlier component's class: inherits its declarations, adds its own
+        i = rng.randint(1, len(comps) - 1)
+        j = rng.randint(0, i - 1)
+        for o in comps:
+            if o.get("inject_comp") == comps[i]["name"]:
+                o["inject_comp"] = None
+        base = comps[j]
+        own_resets = [{"attr": "rx", "default": rng.choice([0, False, 2.5, "x"]), "inherited": False, "override": None, "own": True}]
+        inherited = []
+        for r in base["resets"]:
+            r2 = dict(r)
+            if rng.random() < 0.3:
+                r2 = dict(r, default=rng.choice([11, "sub", True, -2.5]), own=True, inherited=False, override=None)   # redeclared with another default
+            inherited.append(r2)
+        comps[i] = dict(base, name=comps[i]["name"], extends=base["name"], in_base_robot=comps[i]["in_base_robot"],
+                        resets=inherited + own_resets)
     split = len(comps) >= 2 and rng.random() < 0.4
     if split:
         k = rng.randint(1, len(comps) - 1)
@@ -122,6 +139,7 @@ def gen_config(rng, prop, tier="quick"):
         "components": comps, "robot_feedbacks": robot_fbs, "modes": modes, "split_robot": split,
         "auto_selector_initial": (rng.choice([m["name"] for m in modes] + ["nonsense"]) if modes and rng.random() < 0.25 else None),
         "cap_waits": rng.choice([4, 8, 12, 20, 30, 45]) if tier != "thorough" else rng.choice([4, 8, 12, 20, 30, 45, 70, 100]),
+        "period_on_instance": rng.random() < 0.15,
         "boot_us": (rng.choice([0, 64, 6400]) * GRID_US) if dyadic else rng.choice([0, 181546, 5_000_003]),
     }
     return cfg
@@ -556,6 +574,15 @@ def build_sources(cfg):
         nm = c["name"]
         if c.get("clone_of"):
             continue
+        if c.get("extends"):
+            L.append(f"class {nm.upper()}({c['extends'].upper()}):")
+            own = [r for r in c["resets"] if r.get("own")]
+            for r in own:
+                L.append(f"    {r['attr']} = will_reset_to({_lit(r['default'])})")
+            if not own:
+                L.append("    pass")
+            L.append("")
+            continue
         if c.get("machine"):
             L.append(f"class {nm.upper()}(magicbot.StateMachine):")
             if c["inject_dep"]:
@@ -601,7 +628,7 @@ def build_sources(cfg):
         for a in c["plain_attrs"]:
             L.append(f"    {a['attr']} = {_lit(a['default'])}")
         L.append("    def __init__(self):")
-        L.append(f"        SIM.ctor(self, '{nm.upper()}')")
+        L.append("        SIM.ctor(self, type(self).__name__)")
         for h in ("setup", "on_enable", "on_disable"):
             if h in c["hooks"]:
                 L.append(f"    def {h}(self):")
@@ -626,11 +653,17 @@ def build_sources(cfg):
         L.append("class Robot(magicbot.MagicRobot):")
     for c in leaf_comps:
         L.append(f"    {c['name']}: {cls_of[c['name']]}")
-    L.append(f"    control_loop_wait_time = {cfg['period']!r}")
+    if cfg.get("period_on_instance"):
+        # the period is configured on the instance in createObjects(); the class attribute keeps another value
+        L.append(f"    control_loop_wait_time = {(0.02 if cfg['period'] != 0.02 else 0.05)!r}")
+    else:
+        L.append(f"    control_loop_wait_time = {cfg['period']!r}")
     L.append(f"    use_teleop_in_autonomous = {bool(cfg['use_teleop_in_auto'])}")
-    if not cfg["split_robot"]:
+    if not cfg["split_robot"] or cfg.get("period_on_instance"):
         L.append("    def createObjects(self):")
         L.append("        self.dep0 = Dep()")
+        if cfg.get("period_on_instance"):
+            L.append(f"        self.control_loop_wait_time = {cfg['period']!r}")
     for h in ("disabledInit", "disabledPeriodic", "teleopInit", "teleopPeriodic", "autonomousInit", "testInit", "testPeriodic"):
         L.append(f"    def {h}(self):")
         L.append(f"        SIM.cb('robot.{h}')")
@@ -704,6 +737,17 @@ def normalise(cfg):
             o = byname[c["clone_of"]]
             for k in ("hooks", "resets", "plain_attrs", "feedbacks", "inject_dep", "inject_comp"):
                 c[k] = o[k]
+        if c.get("extends") and (c["extends"] not in names or byname[c["extends"]].get("clone_of") or byname[c["extends"]].get("extends")
+                                 or byname[c["extends"]].get("machine")):
+            c["extends"] = None
+            c["resets"] = [dict(r, own=False) for r in c["resets"]]
+        if c.get("extends"):
+            o = byname[c["extends"]]
+            for k in ("hooks", "plain_attrs", "feedbacks", "inject_dep", "inject_comp"):
+                c[k] = o[k]
+            own = [r for r in c["resets"] if r.get("own")]
+            own_names = {r["attr"] for r in own}
+            c["resets"] = [dict(r) for r in o["resets"] if r["attr"] not in own_names] + own
     for c in comps:
         if not cfg.get("split_robot"):
             c["in_base_robot"] = False
